@@ -358,6 +358,17 @@ def _concat_job(case):
         procs = [[a], [b]] if case["two_procs"] else [[a, b]]
         if case["order"]:
             procs = [list(reversed(p)) for p in reversed(procs)]
+    elif kind == "builtin_values":
+        # equal names, different values: one entry serves both templates,
+        # each renders with its own values
+        body = "<p>${a}|${bc}</p>"
+        a = {"cls": "PageTemplate", "body": body, "kwargs": {},
+             "options": {"extra_builtins": {"a": "ONE", "bc": "1"}}}
+        b = {"cls": "PageTemplate", "body": body, "kwargs": {},
+             "options": {"extra_builtins": {"a": "TWO", "bc": "2"}}}
+        procs = [[a], [b]] if case["two_procs"] else [[a, b, a]]
+        if case["order"]:
+            procs = [list(reversed(p)) for p in reversed(procs)]
     elif kind == "class_suffix":
         a = dict(kw, cls="SubA", body=x)
         b = dict(kw, cls="A", body=x + "Sub")
@@ -432,9 +443,11 @@ class Bodies(Stage):
                                               "pos": pos + seed,
                                               "order": order,
                                               "two_procs": two})
-        for kind in ("class_suffix", "builtin_names", "class_between",
-                     "nothing_between", "text_class_between"):
-            pairwise = kind in ("class_suffix", "builtin_names")
+        for kind in ("class_suffix", "builtin_names", "builtin_values",
+                     "class_between", "nothing_between",
+                     "text_class_between"):
+            pairwise = kind in ("class_suffix", "builtin_names",
+                                "builtin_values")
             for order in range(2 if pairwise else 5):
                 for two in ((False, True) if pairwise else (False,)):
                     cases.append({"base": "concat", "kind": kind,
